@@ -296,8 +296,8 @@ impl<'m> Interp<'m> {
                 // assignment-like operators return lvalues; anything else is a temporary
                 match e {
                     ir::Expression::IntrinsicOp(op, args) if is_assignment(op) || matches!(op, ir::IntrinsicOp::PrefixIncrement | ir::IntrinsicOp::PrefixDecrement) => {
-                        let _ = self.eval(e)?;
-                        self.place(&args[0])?
+                        // the operand's own effects happen exactly once
+                        self.apply_lvalue_op(op, args)?.0
                     }
                     ir::Expression::Sequence(chain) => {
                         for x in &chain[..chain.len() - 1] {
@@ -434,12 +434,13 @@ impl<'m> Interp<'m> {
         use ir::IntrinsicOp::*;
         let bin = |name: &'static str| name;
         Ok(match op {
-            PrefixIncrement | PrefixDecrement | PostfixIncrement | PostfixDecrement => {
+            PrefixIncrement | PrefixDecrement => self.apply_lvalue_op(op, args)?.1,
+            PostfixIncrement | PostfixDecrement => {
                 let p = self.place(&args[0])?;
                 let old = self.read(&p)?;
-                let new = step_one(&old, if matches!(op, PrefixIncrement | PostfixIncrement) { 1 } else { -1 });
-                self.write(&p, new.clone())?;
-                if matches!(op, PrefixIncrement | PrefixDecrement) { new } else { old }
+                let new = step_one(&old, if matches!(op, PostfixIncrement) { 1 } else { -1 });
+                self.write(&p, new)?;
+                old
             }
             Plus => self.eval(&args[0])?,
             Minus => unop("-", &self.eval(&args[0])?),
@@ -476,13 +477,29 @@ impl<'m> Interp<'m> {
                 let b = self.eval(&args[1])?;
                 binop(name, &a, &b)
             }
+            op if is_assignment(op) => self.apply_lvalue_op(op, args)?.1,
+            other => return unsupported(format!("intrinsic operator {:?}", other)),
+        })
+    }
+
+    /// prefix increment / decrement and the assignment operators: returns the place written and its new value
+    fn apply_lvalue_op(&mut self, op: &ir::IntrinsicOp, args: &[ir::Expression]) -> R<(Place, V)> {
+        use ir::IntrinsicOp::*;
+        Ok(match op {
+            PrefixIncrement | PrefixDecrement => {
+                let p = self.place(&args[0])?;
+                let old = self.read(&p)?;
+                let new = step_one(&old, if matches!(op, PrefixIncrement) { 1 } else { -1 });
+                self.write(&p, new.clone())?;
+                (p, new)
+            }
             Assignment => {
                 let p = self.place(&args[0])?;
                 let v = self.eval(&args[1])?;
                 self.write(&p, v.clone())?;
-                v
+                (p, v)
             }
-            SumAssignment | DifferenceAssignment | ProductAssignment | QuotientAssignment | RemainderAssignment | LeftShiftAssignment | RightShiftAssignment | BitwiseAndAssignment | BitwiseOrAssignment | BitwiseXorAssignment => {
+            _ => {
                 let name = match op {
                     SumAssignment => "+",
                     DifferenceAssignment => "-",
@@ -493,7 +510,8 @@ impl<'m> Interp<'m> {
                     RightShiftAssignment => ">>",
                     BitwiseAndAssignment => "&",
                     BitwiseOrAssignment => "|",
-                    _ => "^",
+                    BitwiseXorAssignment => "^",
+                    other => return unsupported(format!("lvalue operator {:?}", other)),
                 };
                 let p = self.place(&args[0])?;
                 let rhs = self.eval(&args[1])?;
@@ -505,9 +523,8 @@ impl<'m> Interp<'m> {
                     _ => new,
                 };
                 self.write(&p, new.clone())?;
-                new
+                (p, new)
             }
-            other => return unsupported(format!("intrinsic operator {:?}", other)),
         })
     }
 
